@@ -209,6 +209,76 @@ def random_worker(args):
     return viol, stats
 
 
+def wire_worker(args):
+    """end to end: a real QXmppClient configured through QXmppConfiguration against the scripted server; the first authentication element on the wire is compared with the reference"""
+    import wire
+    from xml.dom import minidom
+    wid, count = args
+    binary = vf.build_harness("wire")
+    r = vf.rng("c05-wire", wid)
+    names = UNIVERSE + ["X-OAUTH2", "SCRAM-SHA-1024", "HT-SHA-512-NONE", "EXTERNAL", "scram-sha-1"]
+    cases, metas = [], []
+    for n in range(count):
+        offered = r.sample(names, r.choice([1, 2, 3, 5, 8]))
+        disabled = r.sample(DISABLABLE, r.choice([0, 0, 1, 2, 3]))
+        if r.random() < 0.5 and "PLAIN" not in disabled:
+            disabled.append("PLAIN")
+        preferred = r.choice([""] * 3 + UNIVERSE)
+        cred = {"password": r.choice(["pw", "pw", ""])}
+        if r.random() < 0.35:
+            cred["token"] = {"mech": r.choice(["HT-SHA-256-NONE", "HT-SHA3-512-NONE", "HT-SHA-256-ENDP"]), "secret": "s3cr3t"}
+        sasl2 = r.random() < 0.5
+        fast = r.random() < 0.6
+        kw = dict(password=cred["password"], disabled=disabled, sasl2=sasl2, fast=fast)
+        if preferred:
+            kw["mechanism"] = preferred
+        if "token" in cred:
+            kw["token"] = cred["token"]
+        if sasl2:
+            plain_mechs = [m for m in offered if not m.startswith("HT-")]
+            ht = [m for m in offered if m.startswith("HT-")]
+            offer_fast = r.random() < 0.8
+            feats = wire.features(wire.f_sasl2(mechs=plain_mechs, bind2=True, fast=ht if (offer_fast and ht) else None))
+            eff = plain_mechs + (ht if (fast and offer_fast) else [])
+            kw["userAgent"] = True
+        else:
+            feats = wire.features(wire.f_mechs(offered))
+            eff = offered
+        steps = [wire.client(**kw), dict(op="connect"), wire.A("stream:stream"), wire.S(wire.hdr("s1") + feats),
+                 wire.A("authenticate" if sasl2 else "auth", optional=True, timeout=1500), dict(op="settle", quiet=5)]
+        cases.append(dict(steps=steps, timeout=3000))
+        metas.append((eff, disabled, preferred, cred, sasl2, fast, offered))
+    outs, crashes = wire.run_cases(binary, cases)
+    viol, stats = [], {"wire_sessions": 0, "wire_mismatch_expected": 0, "wire_choices": {}}
+    for rq, info in crashes:
+        viol.append(("wire crash " + vf.crash_sig(info), "sanitizer report / abnormal exit of a connecting client", {"stderr": info["stderr"][-3000:]}))
+    for out, (eff, disabled, preferred, cred, sasl2, fast, offered) in zip(outs, metas):
+        if not out:
+            continue
+        stats["wire_sessions"] += 1
+        exp = reference(eff, disabled, preferred, cred)
+        first = None
+        for e in wire.srv_rx(out["journal"]):
+            if e["tag"] in ("auth", "authenticate", "response", "iq", "message", "presence"):
+                first = e
+                break
+        mech = None
+        if first is not None and first["tag"] in ("auth", "authenticate"):
+            mech = minidom.parseString(first["xml"].encode("utf8")).documentElement.getAttribute("mechanism")
+        w = {"offered": offered, "effective_offer": eff, "disabled": disabled, "preferred": preferred, "credentials": cred, "sasl2": sasl2, "fast_enabled": fast,
+             "first_element_after_features": first and first.get("xml", "")[:300], "expected": exp,
+             "client_errors": [e.get("text") for e in wire.signals(out["journal"], "errorOccurred")]}
+        if exp is None:
+            stats["wire_mismatch_expected"] += 1
+            if first is not None:
+                viol.append(("wire %s sasl%d" % (classify(mech or "?", exp, disabled, eff, cred), 2 if sasl2 else 1), "nothing qualifies, yet the client sent %s" % first["tag"], w))
+        elif mech != exp:
+            viol.append(("wire %s sasl%d" % (classify(mech or "MechanismMismatch", exp, disabled, eff, cred), 2 if sasl2 else 1), "on the wire the client used %r, the reference says %s" % (mech, exp), w))
+        else:
+            stats["wire_choices"][exp] = stats["wire_choices"].get(exp, 0) + 1
+    return viol, stats
+
+
 def merge(a, b):
     for k, v in b.items():
         if isinstance(v, dict):
@@ -249,6 +319,7 @@ def main(tier, replay=None):
     with ProcessPoolExecutor(max_workers=vf.NPROC) as ex:
         res = list(ex.map(range_worker, jobs, chunksize=1))
         res += list(ex.map(random_worker, [(w, nrand) for w in range(vf.NPROC)]))
+        res += list(ex.map(wire_worker, [(w, (1600 if tier == "quick" else 64000) // vf.NPROC) for w in range(vf.NPROC)]))
     for viol, st in res:
         for sig, what, w in viol:
             V.violation(sig, what, w)
@@ -261,6 +332,9 @@ def main(tier, replay=None):
            "exhaustive": exhaustive, "observed": stats,
            "samples": [{"offered": ["SCRAM-SHA-1", "PLAIN", "HT-SHA-256-NONE"], "disabled": ["PLAIN"], "preferred": "PLAIN", "credentials": CREDS[2],
                         "reference": reference(["SCRAM-SHA-1", "PLAIN", "HT-SHA-256-NONE"], ["PLAIN"], "PLAIN", CREDS[2])}]}
-    floors = {"cases": stats["cases"] > 1000, "mismatch_cases": stats["mismatch_expected"] > 0, "choices>=5": len(stats["by_choice"]) >= 5}
+    floors = {"cases": stats["cases"] > 1000, "mismatch_cases": stats["mismatch_expected"] > 0, "choices>=5": len(stats["by_choice"]) >= 5,
+              "wire_sessions": stats.get("wire_sessions", 0) >= 1000, "wire_choices>=5": len(stats.get("wire_choices", {})) >= 5, "wire_mismatch": stats.get("wire_mismatch_expected", 0) > 0}
+    cov["evaluations"] += stats.get("wire_sessions", 0)
+    cov["on_the_wire"] = "real QXmppClient sessions configured through QXmppConfiguration (disabled mechanisms, preferred mechanism, password / FAST token, SASL vs SASL2, FAST on/off) against the scripted server offering random mechanism lists: the first authentication element the server receives is compared with the same reference"
     V.finish(cov, "exploration", ["the reference choice function is our reading of the property statement (token > SCRAM by hash > DIGEST-MD5 > PLAIN > ANONYMOUS > X-*)",
-                                  "managers are driven behind a mock socket; the whole-client path is covered by the wire engine checks"], floors)
+                                  "the enumeration drives the managers behind a mock socket; the whole-client path is sampled by real sessions against the scripted server"], floors)
